@@ -9,54 +9,10 @@
    fail.  HPlans_proofs.v ties the hand-written plans to the heap model H. *)
 From Coq Require Import ZArith NArith List Bool String Lia ZifyBool ZifyN ZifyNat.
 Import ListNotations.
-From CB Require Import Word PStream PEnc PMem GenLeafTypes BridgeTac HHeap HItems HOps HCont_proofs HPlans HPlans_proofs.
+From CB Require Import Word PStream PEnc PMem GenLeafTypes BridgeTac BridgeEffTac HHeap HItems HOps HCont_proofs HPlans HPlans_proofs.
 From CBGen Require Import Gen_config Gen_effects.
 Ltac Zify.zify_post_hook ::= Z.div_mod_to_equations.
 Local Open Scope Z_scope.
-
-(* structural equality of plans: congruence at the constructors of HPlans only, integer leaves by
-   lia (which also closes a goal whose hypotheses are contradictory) *)
-Ltac peq :=
-  first
-  [ reflexivity
-  | lazymatch goal with
-    | |- @eq Z _ _ => lia
-    | |- @eq N _ _ => lia
-    | |- @eq plan (mkplan _ _ _ _) (mkplan _ _ _ _) => f_equal; peq
-    | |- @eq rv (RZ _) (RZ _) => f_equal; peq
-    | |- @eq rv (RP _) (RP _) => f_equal; peq
-    | |- @eq ptr (PSlot _ _ _) (PSlot _ _ _) => f_equal; peq
-    | |- @eq ptr (PField _ _) (PField _ _) => f_equal; peq
-    | |- @eq (list _) (_ :: _) (_ :: _) => f_equal; peq
-    | |- @eq (prod _ _) (_, _) (_, _) => f_equal; peq
-    | |- @eq req (ReqMalloc _) (ReqMalloc _) => f_equal; peq
-    | |- @eq req (ReqRealloc _ _) (ReqRealloc _ _) => f_equal; peq
-    | |- @eq req (ReqAllocMultiple _ _) (ReqAllocMultiple _ _) => f_equal; peq
-    | |- @eq req (ReqReallocMultiple _ _ _) (ReqReallocMultiple _ _ _) => f_equal; peq
-    | |- @eq req (ReqFree _) (ReqFree _) => f_equal; peq
-    | |- @eq req (ReqCall _ _) (ReqCall _ _) => f_equal; peq
-    | |- @eq arg (AZ _) (AZ _) => f_equal; peq
-    | |- @eq arg (AP _) (AP _) => f_equal; peq
-    | |- @eq eff (Incref _) (Incref _) => f_equal; peq
-    | |- @eq eff (Decref _) (Decref _) => f_equal; peq
-    | |- @eq eff (Move _) (Move _) => f_equal; peq
-    | |- @eq eff (Store _ _ _ _) (Store _ _ _ _) => f_equal; peq
-    | |- @eq eff (Fill _ _ _) (Fill _ _ _) => f_equal; peq
-    | |- @eq eff (SetPtr _ _ _) (SetPtr _ _ _) => f_equal; peq
-    | |- @eq eff (SetInt _ _ _) (SetInt _ _ _) => f_equal; peq
-    end
-  | exfalso; lia ].
-
-(* case split on every condition, innermost first; a branch whose conditions contradict each
-   other is closed at once *)
-Ltac psplits :=
-  repeat match goal with
-  | |- context [if ?c then _ else _] =>
-      lazymatch c with
-      | context [if _ then _ else _] => fail
-      | _ => destruct c eqn:?; try (exfalso; lia)
-      end
-  end.
 
 Ltac plan_unfold :=
   cbv beta zeta delta
